@@ -746,3 +746,35 @@ def parse_problems(ctx):
             out.append((inst, "; ".join(pb) or None, [x[0] for x in evs]))
         return out
     return ctx.memo("headerx_parse", build)
+
+
+def instruction_new_problem(ctx):
+    """Instruction::new(opcode, result_type, result_id, operands) stores its arguments field for field and the grammar row of that opcode"""
+    f = ctx.rspirv.fn("rspirv::dr::constructs", "new", "Instruction", False)
+    ps = [q[0] for q in f["sig"]["params"]]
+
+    class IH2(progx.OpHooks):
+        NO_INLINE = ("get",)
+
+        def call(self, p, args, e):
+            if p.split("::")[-2:] == ["CoreInstructionTable", "get"] and len(args) == 1:
+                return ("row-of", args[0])
+            return progx.OpHooks.call(self, p, args, e)
+    h = IH2(ctx)
+    ev = progx.make(h, "Instruction::new")
+    h.self_ty = "Instruction"
+    OP, RT, RID, OPS = ("enum", "Op::IAdd", []), ("some", ("sym", "RT")), ("some", ("sym", "RID")), ("list", [("sym", "O1"), ("sym", "O2")])
+    try:
+        r = ev.run(f, dict(zip(ps, [OP, RT, RID, OPS])))
+    except SPanic as x:
+        return "panics: %s" % x
+    if not (isinstance(r, tuple) and r[0] == "struct" and r[1] == "Instruction"):
+        return "yields %s" % short(r)
+    fl = r[2]
+    want = {"class": ("row-of", OP), "result_type": RT, "result_id": RID}
+    for k, v in want.items():
+        if fl.get(k) != v:
+            return "field %s is %s" % (k, short(fl.get(k)))
+    if not (isinstance(fl.get("operands"), tuple) and list(fl["operands"][1]) == list(OPS[1])):
+        return "operands are %s" % short(fl.get("operands"))
+    return None
